@@ -1368,6 +1368,15 @@ def lru_history(ctx, tables, quick):
                 ops.append(f"m{oi}")
                 out.append("-")
                 continue
+            if r < 0.07:
+                # a raising call (no such link attribute): lru_cache stores nothing
+                try:
+                    net.path_lengths(link_attribute="no-such-attribute")
+                except Exception:  # noqa
+                    ops.append(f"x{mi}.999")
+                    out.append("-")
+                    ctx.count("Network:lru-history-raising-calls")
+                continue
             if r < 0.45 and recent:
                 k = rng.choice(recent[-rng.choice([3, 20, 33, 40]):])
             else:
@@ -1381,7 +1390,7 @@ def lru_history(ctx, tables, quick):
         ctx.case(("lru-history", rep, len(ops), nkeys), True)
         ctx.count("Network:lru-histories")
         ctx.count("Network:lru-history-ops", len(ops))
-        reqs.append("nhist Network " + ",".join(ops))
+        reqs.append("xhist Network " + ",".join(ops))
         impl.append(out)
     return reqs, impl
 
